@@ -11,7 +11,7 @@ must predict all of it.
 Oracle: the property sentence in Python: the lower-cased multiset of all runnable names; reject
 (exit 1, duplicate diagnosis naming real colliders) iff some name occurs twice; otherwise every
 name runs its own definition."""
-import json, os, re
+import json, os, re, time
 from vlib import *
 import projlib
 import c07gen
@@ -143,16 +143,47 @@ def _keep_times(spec):
     return any(g.get("keep_times") for h in [spec] + spec["imports"] for g in h.get("files", {}).values())
 
 
+class OneCache:
+    """mage with a cache directory of its own (one per project directory; removed with it to bound disk use)"""
+    def __init__(self, mage, cache):
+        self.mage, self.cache = mage, cache
+
+    # the Go build cache is shared by everything on the machine: an entry trimmed away by another process, or a
+    # full disk, is not behaviour of mage - the command is repeated
+    INFRA = re.compile(r"\.cache/go-build/\S+: no such file or directory|No space left on device|cannot open file /\S*go-build")
+
+    def run(self, cwd, args, **kw):
+        kw.setdefault("cache", self.cache)
+        for attempt in range(4):
+            r = self.mage.run(cwd, args, **kw)
+            if r["rc"] == 0 or not self.INFRA.search(r["err"]):
+                return r
+            time.sleep(1 + attempt)
+        raise BuildError("the Go build cache / disk kept failing under `mage %s`: %s" % (" ".join(args), r["err"][-400:]))
+
+    def env(self, extra=None):
+        return self.mage.env(extra, self.cache)
+
+
 def observe_history(mage, states):
     """the states of one project directory, in order, all with the same cache"""
     d, out = None, []
-    for spec in states:
-        files = c07gen.render(spec)
-        if d is None:
-            d = mage.project(files, name=spec["name"])
-        else:
-            rewrite(d, files, keep_file_times=_keep_times(spec))
-        out.append(observe_state(mage, d, spec))
+    cache = os.path.join(mage.ctx.tmp, "hcache", states[0]["name"])
+    os.makedirs(cache, exist_ok=True)
+    m = OneCache(mage, cache)
+    try:
+        for spec in states:
+            files = c07gen.render(spec)
+            if d is None:
+                d = mage.project(files, name=spec["name"])
+            else:
+                rewrite(d, files, keep_file_times=_keep_times(spec))
+            out.append(observe_state(m, d, spec))
+    finally:
+        import shutil
+        shutil.rmtree(cache, ignore_errors=True)
+        if d:
+            shutil.rmtree(d, ignore_errors=True)
     return out
 
 
@@ -337,7 +368,7 @@ def run(ctx):
         if rc_ != 0:
             raise BuildError("docview (names) failed: " + err_[-500:])
         ans = json.loads(out_.splitlines()[0])
-        for n in (ans.get("names") or ans.get("infos") or ans if isinstance(ans, list) else ans.get("names", [])):
+        for n in next(v for v in ans.values() if isinstance(v, list) and v and isinstance(v[0], dict) and "lower" in v[0]):
             c07gen.GO_LOWER[n["name"]] = n["lower"]
         for c in chars:
             if c not in c07gen.GO_LOWER:
@@ -353,7 +384,7 @@ def run(ctx):
     matrix, outcome, msgs = {}, {"accepted": 0, "rejected": 0, "other": 0}, {"case": 0, "alias": 0, "multi": 0}
     words_run = 0
     modes = {}
-    for k, (spec, o) in enumerate(zip(specs, obs)):
+    for si, (spec, o) in enumerate(zip(specs, obs)):
         if o.get("golist_disagrees"):
             disagree += 1
             ctx.notes.append("state skipped, " + o["golist_disagrees"])
@@ -374,7 +405,7 @@ def run(ctx):
         words_run += len(o["runs"])
         bad = oracle(spec, o) or oracle_commands(spec, o)
         if bad:
-            hist = prefix[k]
+            hist = prefix[si]
             if spec.get("mode", "plain") != "plain":
                 bad = "[invoked with %s] %s" % (spec["mode"], bad)
             if len(hist) > 1:
@@ -387,7 +418,7 @@ def run(ctx):
                 nontriv += 1
         if c07gen.inside_model(c07gen.strings_of(spec)):
             items.append("{| c_pkg := %s; c_obs := %s |}" % (pkg_term(spec), obs_term(spec, o)))
-            item_state.append(k)
+            item_state.append(si)
         else:
             outside += 1              # upper-case letters outside ASCII: judged by the oracle (Go's ToLower), not fed to the ASCII model
     header = "From Mage Require Import Base.Strs Model.Dupes Run.eval_C07.\n"
